@@ -241,6 +241,13 @@ def train_off_policy(
         pop_fps = []
         for agent_idx, agent in enumerate(pop):  # Loop through population
             state, info = env.reset()  # Reset environment at start of episode
+            if n_step_memory is not None:
+                # Transitions still waiting in the n-step window belong to the episode
+                # that this reset cuts short, they must not be fused with the new one
+                pending_window = getattr(n_step_memory, "n_step_buffer", None)
+                if pending_window is not None:
+                    pending_window.clear()
+
             scores = np.zeros(num_envs)
             completed_episode_scores, losses = [], []
             steps = 0
